@@ -39,6 +39,29 @@ type Case struct {
 	Outcome   string   `json:"outcome"`
 	Via       string   `json:"via"` // untyped (APIHandler) | typed (RouteInfo/Authorize/BindValidRequest/Respond)
 	Auth      *Auth    `json:"auth,omitempty"`
+	// sequence sweep: the description variant, and the requests served one after the
+	// other by ONE Context (the fields above then describe nothing; each step is
+	// expanded into a Case of its own by stepCase)
+	IDs   string `json:"ids,omitempty"`
+	Steps []Step `json:"steps,omitempty"`
+	Path  string `json:"path,omitempty"` // explicit request path (set by stepCase)
+}
+
+// Step is one request of a sequence: an operation of seqOps, what its handler returns,
+// the Accept header and the entry point.
+type Step struct {
+	Op       int     `json:"op"`
+	Outcome  string  `json:"outcome"`
+	NoAccept bool    `json:"no_accept"`
+	Accept   []Range `json:"accept"`
+	Via      string  `json:"via"`
+}
+
+// stepCase expands a step into the Case the reference judges.
+func stepCase(mode, ids string, s Step) Case {
+	o := seqOps[s.Op]
+	return Case{Sweep: "seq-step", Mode: mode, IDs: ids, Produces: o.Produces, Where: "op", Responses: o.Codes,
+		Target: "op", Method: o.Method, Path: o.ReqPath, NoAccept: s.NoAccept, Accept: s.Accept, Outcome: s.Outcome, Via: s.Via}
 }
 
 // mediaPart: a media type with its parameters ignored.
